@@ -11,10 +11,10 @@ extern "C" {
 }
 typedef long double LD;
 
-enum { L_TRAP, L_BELL, L_REVERSED, L_CRUISE, L_NO_CRUISE, L_TA_ZERO, L_TD_ZERO, L_AM_REDUCED, L_OPPOSING_V0, L_CLAMPED, L_RETURN_NONPOS, L_V_ON_LIMIT, L_V1_REWRITTEN, L_UNEQUAL_ACC_DEC, L_REPAIRED, L_LATTICE };
+enum { L_TRAP, L_BELL, L_REVERSED, L_CRUISE, L_NO_CRUISE, L_TA_ZERO, L_TD_ZERO, L_AM_REDUCED, L_OPPOSING_V0, L_CLAMPED, L_RETURN_NONPOS, L_V_ON_LIMIT, L_V1_REWRITTEN, L_UNEQUAL_ACC_DEC, L_REPAIRED, L_LATTICE, L_SEARCH_GRID };
 static char const *const labels[] = {"trapezoid", "bell", "reversed_travel", "cruise_phase", "no_cruise_phase", "acceleration_phase_empty", "deceleration_phase_empty",
                                      "bell_acceleration_limit_not_reached", "initial_velocity_opposes_travel", "boundary_velocity_clamped", "generator_returned_nonpositive",
-                                     "boundary_velocity_on_limit", "final_velocity_rewritten_by_planner", "trap_unequal_acc_dec_and_speeds", "bell_request_repaired_to_feasible", "all_quantities_on_a_coarse_lattice", nullptr};
+                                     "boundary_velocity_on_limit", "final_velocity_rewritten_by_planner", "trap_unequal_acc_dec_and_speeds", "bell_request_repaired_to_feasible", "all_quantities_on_a_coarse_lattice", "single_phase_switch_over_next_to_a_search_grid_value", nullptr};
 static char const *const metrics[] = {"max_limit_ratio_minus_1", "max_continuity_jump_over_tol", "max_derivative_mismatch_over_tol", nullptr};
 static uint8_t const dict[] = {0, 255, 128, 127};
 static vp_info const info = {"C14", "traj", "", labels, metrics, 64, dict, sizeof(dict)};
@@ -183,7 +183,35 @@ static void case_bell(Tape &t, Ctx &cx)
     if (t.u8() % 4 == 0) { p0 = 0; }
     bool o0, o1;
     double v0 = gen_bv(t, cx, vm, dir, o0), v1 = gen_bv(t, cx, vm, dir, o1);
-    if (t.u8() % 3 == 0)
+    uint8_t lsel = t.u8();
+    if (lsel % 3 == 1 && (lsel / 3) % 3 == 0)
+    {
+        // grey-box class: the planner's no-cruise search tries accelerations am * k / 2^n; a single-phase request (acceleration
+        // or deceleration only) whose switch-over acceleration a1 - where the other phase just vanishes,
+        // |p1 - p0| = (vf - vs)(vf + vs - a1^2/jm) / (2 a1) - sits within 1e-9 .. 1e-15 of such a value is where the search and
+        // the closed form hand over to each other. Steers the generator only.
+        jm = loguni(t, 0.05, 200);
+        am = loguni(t, 0.05, 200);
+        unsigned nb = 1 + t.u8() % 5, kk = 1 + t.u8() % ((1u << nb) - 0);
+        if (kk > (1u << nb)) { kk = 1u << nb; }
+        long double eps = powl(10.0L, -9.0L - (long double)(t.u8() % 7));
+        if (t.coin()) { eps = -eps; }
+        long double a1 = (long double)am * kk / (long double)(1u << nb) * (1 + eps);
+        long double vlo = a1 * a1 / jm; // vs + vf has to exceed this
+        long double vs = vlo * (0.05L + 0.9L * t.u8() / 255.0L), vf = vlo * (1.0L + 0.05L + 2.0L * t.u8() / 255.0L) - vs;
+        if (vf < vs) { std::swap(vs, vf); }
+        long double pp = (vf - vs) * (vf + vs - a1 * a1 / jm) / (2 * a1);
+        vm = double(vf * (1.0L + t.u8() / 64.0L)) + 1e-3;
+        bool accel_only = t.coin();
+        v0 = double(accel_only ? vs : vf) * dir;
+        v1 = double(accel_only ? vf : vs) * dir;
+        dist = double(pp);
+        p0 = 0; // p1 - p0 has to carry the constructed distance to the last bit
+        o0 = o1 = false;
+        cx.label(L_SEARCH_GRID);
+        if (!(dist > 0) || !std::isfinite(dist)) { dist = 1; }
+    }
+    if (lsel % 3 == 0)
     {
         // lattice class: every quantity a small multiple of one step (1, 1/10, 1/8, 1/4). Continuous draws never produce the exact
         // coincidences between internal quantities (a bisection value hitting a switch-over point, two phase times being equal)
